@@ -489,13 +489,17 @@ func (g *hGen) mutate() {
 		}
 		g.add(delOp(), g.obj("BaselineAdminNetworkPolicy", g.mkBANP(name)))
 	case 10:
-		// only arguments that cannot fail: fresh policy names, valid pods
+		// fresh policy names and valid pods; a third of the batches ends in a taken policy name and is
+		// applied only half-way (its pods never arrive, so they are not believed in either)
+		failing := r.chance(1, 3) && len(g.nps) > 0
 		var objs []job.Obj
 		for i, n := 0, r.between(1, 2); i < n; i++ {
 			k := g.podName()
 			ns, name := splitKey(k)
 			p := g.mkPod(ns, name)
-			g.pods[k] = p
+			if !failing {
+				g.pods[k] = p
+			}
 			objs = append(objs, g.obj("Pod", p))
 		}
 		if r.chance(1, 2) {
@@ -510,7 +514,7 @@ func (g *hGen) mutate() {
 			g.nps[k] = np
 			objs = append(objs, g.obj("NetworkPolicy", np))
 		}
-		if r.chance(1, 3) && len(g.nps) > 0 {
+		if failing {
 			// a batch that fails half-way: a policy name that is already taken comes last among the
 			// policies, so what precedes it (namespaces, fresh policies) is applied and the pods are not
 			k := pick(r, sortedKeys(g.nps))
@@ -717,6 +721,7 @@ func same(a *bool, ae string, b *bool, be string) bool {
 // c15Oracle evaluates a history trace. It returns the first finding, or nil.
 func c15Oracle(steps []job.Step, t *job.Trace) *c15Finding {
 	pods := map[string]podInfo{}
+	tainted := map[string]bool{} // verdict keys (by owner and label set) that were asked about while a workload was conflated
 	for i := range t.Events {
 		e := &t.Events[i]
 		st := &steps[e.Step]
@@ -740,9 +745,16 @@ func c15Oracle(steps []job.Step, t *job.Trace) *c15Finding {
 			return &c15Finding{"order", i, fmt.Sprintf("%s: fresh engine filled in canonical order says %s, filled in reverse order says %s",
 				opDesc(st), answer(e.Fresh, e.FreshErr), answer(e.FreshR, e.FreshRErr))}
 		}
+		vkey := pods[st.Src].group + "|" + pods[st.Dst].group + "|" + st.Proto + "|" + st.Port
 		if conflated(pods, st.Src) || conflated(pods, st.Dst) {
 			// the verdict cache is keyed by (owner, label set) by design; a workload observed while its
-			// pods disagree on container ports is outside what the cache promises, and is not compared
+			// pods disagree on container ports is outside what the cache promises, and is not compared.
+			// What was asked in that state may have been cached under the workload's key, so the same
+			// question about the same workloads stays out of the comparison for the rest of the history.
+			tainted[vkey] = true
+			continue
+		}
+		if tainted[vkey] {
 			continue
 		}
 		if !same(e.Allowed, e.QErr, e.Fresh, e.FreshErr) {
